@@ -131,22 +131,68 @@ func encodeBody(side string, handle uint32, p []byte) ([]byte, error) {
 	return append(tid, body...), nil
 }
 
-// split cuts b into n non-empty parts at seeded positions.
-func split(b []byte, n int, rnd *rand.Rand) [][]byte {
-	if n <= 1 {
+// split cuts b into n non-empty parts: at seeded positions ("any"), evenly, or with a first /
+// last part of 1-2 bytes next to parts that are as large as the others allow.
+func split(b []byte, n int, rnd *rand.Rand, shape string) [][]byte {
+	if n <= 1 || len(b) < n {
 		return [][]byte{b}
 	}
-	cuts := map[int]bool{}
-	for len(cuts) < n-1 {
-		cuts[1+rnd.Intn(len(b)-1)] = true
-	}
-	var parts [][]byte
-	last := 0
-	for i := 1; i <= len(b); i++ {
-		if cuts[i] || i == len(b) {
-			parts = append(parts, b[last:i])
-			last = i
+	var sizes []int
+	switch shape {
+	case "even":
+		for i := 0; i < n; i++ {
+			sizes = append(sizes, len(b)/n)
 		}
+	case "tinyfirst", "tinylast":
+		tiny := 1 + rnd.Intn(2)
+		rest := len(b) - tiny
+		if n == 2 {
+			sizes = []int{tiny, rest}
+		} else {
+			// middle parts full, the part at the other end short
+			short := 1 + rnd.Intn(8)
+			if rest-short < n-2 {
+				short = 1
+			}
+			full := (rest - short) / (n - 2)
+			sizes = append(sizes, tiny)
+			for i := 0; i < n-2; i++ {
+				sizes = append(sizes, full)
+			}
+			sizes = append(sizes, short)
+		}
+		if shape == "tinylast" {
+			for i, j := 0, len(sizes)-1; i < j; i, j = i+1, j-1 {
+				sizes[i], sizes[j] = sizes[j], sizes[i]
+			}
+		}
+	default:
+		cuts := map[int]bool{}
+		for len(cuts) < n-1 {
+			cuts[1+rnd.Intn(len(b)-1)] = true
+		}
+		last := 0
+		for i := 1; i <= len(b); i++ {
+			if cuts[i] || i == len(b) {
+				sizes = append(sizes, i-last)
+				last = i
+			}
+		}
+	}
+	// whatever is left over goes to the largest part
+	sum, big := 0, 0
+	for i, sz := range sizes {
+		sum += sz
+		if sz > sizes[big] {
+			big = i
+		}
+	}
+	sizes[big] += len(b) - sum
+	var parts [][]byte
+	off := 0
+	for _, sz := range sizes {
+		parts = append(parts, b[off:off+sz])
+		off += sz
 	}
 	return parts
 }
@@ -192,7 +238,11 @@ func runBehRef(b *Beh) runResult {
 	bi := &baseInfo{seq: map[int]uint32{}, req: map[int]uint32{}, digs: map[int]string{}}
 	parts := map[int][][]byte{}
 	for m, pm := range b.Plan {
-		p := payload(uint32(m+1), 40+rnd.Intn(3000), vfgo.Seed()+b.Salt)
+		psz := 40 + rnd.Intn(3000)
+		if b.Split == "tinyfirst" || b.Split == "tinylast" {
+			psz = 3000 + rnd.Intn(9000) // large parts next to the tiny one
+		}
+		p := payload(uint32(m+1), psz, vfgo.Seed()+b.Salt)
 		bi.digs[m+1] = dig(p)
 		body, err := encodeBody(b.Side, 500+uint32(m), p)
 		if err != nil {
@@ -203,7 +253,7 @@ func runBehRef(b *Beh) runResult {
 			nb = pm.N - 1
 		}
 		if nb > 0 {
-			parts[m+1] = split(body, nb, rnd)
+			parts[m+1] = split(body, nb, rnd, b.Split)
 		}
 	}
 	for _, c := range b.Chunks {
@@ -269,7 +319,7 @@ func cutAtFence(evs []Ev, fd string) ([]Ev, bool) {
 // runFlood (C13): the reference sender opens many request ids with intermediate chunks and never
 // completes them; judged are the memory the receiver holds for incomplete messages (against the
 // negotiated MaxChunkCount, with a stated slack) and that the channel is still alive or closed.
-const floodSlack = 4
+const floodSlack = 2
 
 func runFlood(b *Beh) runResult {
 	g, err := openRig(rigOpts{Policy: b.Policy, Mode: b.Mode, Side: b.Side, MaxChunks: b.MaxChunks})
@@ -287,11 +337,39 @@ func runFlood(b *Beh) runResult {
 	_, _, cur, _, _ := uasc.VerifActive(g.sendCh)
 	seq := cur
 	rnd := vfgo.Rand(int64(b.N) * 71)
-	maxSeen := 0
+	// messages the stream completes carry real bodies (cut as the behaviour's split shape says): the
+	// specification says which of them are delivered whole; the others get random bytes
+	parts := map[int][][]byte{}
+	digs := map[int]string{}
+	for m, pm := range b.Plan {
+		if pm.Ab || pm.Cut != pm.N {
+			continue
+		}
+		psz := 600 + rnd.Intn(2000)
+		if pm.N > 1 {
+			psz = 2000 + rnd.Intn(6000)
+		}
+		p := payload(uint32(m+1), psz, vfgo.Seed()+int64(b.N))
+		digs[m+1] = dig(p)
+		body, err := encodeBody(b.Side, 600+uint32(m), p)
+		if err != nil {
+			return runResult{status: "inconclusive", detail: "encode: " + err.Error()}
+		}
+		parts[m+1] = split(body, pm.N, rnd, b.Split)
+	}
 	for _, c := range b.Chunks {
 		seq++
-		body := make([]byte, 200+rnd.Intn(800))
-		rnd.Read(body)
+		var body []byte
+		switch {
+		case c.Kind == "A":
+			ab := &uasc.MessageAbort{ErrorCode: uint32(ua.StatusBadRequestTooLarge), Reason: "aborted"}
+			body, _ = ab.Encode()
+		case parts[c.Msg] != nil:
+			body = parts[c.Msg][c.Part-1]
+		default:
+			body = make([]byte, 200+rnd.Intn(800))
+			rnd.Read(body)
+		}
 		fr, err := rs.chunk(c.Kind[0], seq, 7000+uint32(c.Req), body)
 		if err != nil {
 			return runResult{status: "inconclusive", detail: "chunk: " + err.Error()}
@@ -315,13 +393,28 @@ func runFlood(b *Beh) runResult {
 		return false
 	}, 15*time.Second)
 	reqs, chunks, bytes := uasc.VerifBufferedChunks(g.recvCh)
-	if chunks > maxSeen {
-		maxSeen = chunks
-	}
 	obs := map[string]any{"request_ids": reqs, "chunks": chunks, "bytes": bytes, "max_chunk_count": b.MaxChunks,
 		"spec_buffered": b.Buffered, "asis_buffered": b.AsisBuffered}
 	if !alive {
-		return runResult{status: "violation", key: "c13:flood-receiver-dead", detail: fmt.Sprintf("after %d intermediate chunks an intact message was not delivered within 15 s and the channel did not close", len(b.Chunks)), obs: obs}
+		return runResult{status: "violation", key: "c13:flood-receiver-dead", detail: fmt.Sprintf("after %d chunks an intact message was not delivered within 15 s and the channel did not close", len(b.Chunks)), obs: obs}
+	}
+	// every message the specification delivers whole must have been delivered (unless the channel closed)
+	got := map[string]bool{}
+	closed := false
+	for _, e := range g.r.snapshot() {
+		if e.Ev == "ret" && e.Err == "" {
+			got[e.Dig] = true
+		}
+		closed = closed || e.EOF
+	}
+	for _, st := range b.Steps {
+		if st.Expect == "deliver" && st.Whole && !closed {
+			m := b.Chunks[st.ID-1].Msg
+			if d := digs[m]; d != "" && !got[d] {
+				return runResult{status: "violation", key: "c13:legal-message-refused-" + fmt.Sprintf("%dchunks", b.Plan[m-1].N),
+					detail: fmt.Sprintf("message %d (%d chunks, split %q, within the negotiated limits) of the history was not delivered; events %v", m, b.Plan[m-1].N, b.Split, evStrings(g.r.snapshot())), obs: obs}
+			}
+		}
 	}
 	limit := floodSlack * int(b.MaxChunks)
 	if chunks > limit {
